@@ -45,6 +45,10 @@ type Program struct {
 	// changes this configuration key (Configure.Set) and looks every lazy component up again.
 	PostSetKey string `json:"postSetKey,omitempty"`
 	PostSetVal int    `json:"postSetVal,omitempty"`
+	// Refuse: instance ids whose definition the first custom scanner refuses, every time (its
+	// PostProcessDefinitionRegistry returns an error for them): part of the program, not a
+	// fault plan - start-up must be refused under every schedule of the scanning phase.
+	Refuse []string `json:"refuse,omitempty"`
 	// Warmup: before the container under observation is built, another container is started
 	// from the very same configuration option values (option values are reused across containers).
 	Warmup bool `json:"warmup,omitempty"`
@@ -361,6 +365,13 @@ func (p *Program) RemoveInstance(id string) {
 		keep = append(keep, i)
 	}
 	p.Instances = keep
+	var rf []string
+	for _, id := range p.Refuse {
+		if !gone[id] {
+			rf = append(rf, id)
+		}
+	}
+	p.Refuse = rf
 	for _, pr := range p.Procs {
 		var rs []*Rule
 		for _, r := range pr.Rules {
